@@ -92,16 +92,51 @@ def check_case(case):
     return bad, m
 
 
+def element_rows(ctx, case, rng):
+    """every element on its OWN scale: in the output equations y = Cx + Du the current row of a resistor must be its voltage row divided by R
+    (entry by entry, 1e-9 relative), whatever the other values in the circuit are — one resistor is swapped for a probe-style giga-ohm value
+    (its current is tiny compared with everything else, but it is not zero)"""
+    import copy
+    probe = copy.deepcopy(case)
+    rs = [c for c in probe['components'] if c['kind'] == 'resistor']
+    if not rs:
+        return
+    victim = rng.choice(rs)
+    victim['params']['R'] = rng.choice(ssrun.R_PROBE)
+    if not ssrun.nondegenerate(probe):
+        return
+    try:
+        m = ssrun.impl_model(probe)
+    except Exception as e:  # noqa: BLE001
+        ctx.violation(f'C10:raises-{type(e).__name__}', f'state_space_model raised on a circuit with a {victim["params"]["R"]:g} ohm resistor: {str(e)[:100]}',
+                      {'circuit': probe})
+        return
+    nout, nid = len(m['nodes']), len(m['ids'])
+    CD = np.hstack([m['C'], m['D']])
+    ctx.count('element-rows:circuits')
+    for r in rs:
+        k = m['ids'].index(r['id'])
+        v, i = CD[nout + k], CD[nout + nid + k]
+        R = r['params']['R']
+        if np.max(np.abs(i - v / R)) > 1e-9 * max(np.max(np.abs(v)) / R, 1e-300):
+            ctx.violation('C10:resistor-current-row-not-voltage-row-over-R', f'{r["id"]!r} (R = {R:g}): current row {i.tolist()} vs voltage row / R '
+                          f'{(v / R).tolist()}', {'circuit': probe, 'element': r['id']})
+            return
+
+
 def swept_twin(case, k):
     """the same topology and names with other capacitances / inductances (a parameter sweep within one session)"""
     import copy
     r = random.Random(k)
     twin = copy.deepcopy(case)
+    what = r.choice(['CL', 'R', 'all'])             # which values the sweep changes (a memo may leave any of them out of its key)
     for c in twin['components']:
-        if c['kind'] == 'capacitor':
+        if c['kind'] == 'capacitor' and what in ('CL', 'all'):
             c['params']['C'] = r.choice([v for v in ssrun.C_VALUES if v != c['params']['C']])
-        if c['kind'] == 'inductance':
+        if c['kind'] == 'inductance' and what in ('CL', 'all'):
             c['params']['L'] = r.choice([v for v in ssrun.L_VALUES if v != c['params']['L']])
+        if c['kind'] == 'resistor' and what in ('R', 'all'):
+            c['params']['R'] = r.choice([v for v in ssrun.R_VALUES if v != c['params']['R']])
     return twin
 
 
@@ -127,6 +162,8 @@ def examine(ctx, cases):
             ctx.violation(key, what, rep)
         if nst >= 1:
             ctx.nontriv([(c['kind'], c['id'], c['nodes'], sorted(c['params'].items())) for c in case['components']])
+        if ctx.evaluations % 3 == 0:
+            element_rows(ctx, case, random.Random(ctx.evaluations))
         ctx.sample({'circuit': case}, cap=3)
     try:
         import ssmodel
